@@ -227,7 +227,7 @@ def replay_wh(pid, path):
         print("replay file names no history: %s" % json.dumps(r.get("no_longer_checks"))[:2000])
         return 1
     common.build_extract()
-    err = common.build_harness(["wh", "wh16"])
+    err = common.build_harness(["wh", "wh9", "wh16"])
     if err:
         raise Infra(err[-2000:])
     sh = wh.run_cases([ops], os.path.join(common.BUILD, "run", "replay-%s" % pid), shards=1, tag="r")
